@@ -909,6 +909,42 @@ def classify_site(toks, i, rel):
 
 GENERATORS += [("Inventory.lean", gen_inventory), ("HashSites.lean", gen_hashsites)]
 
+# ------------------------------------------------------------------ the repr table of Derive::parse
+
+def gen_reprtable(src):
+    """parser/mod.rs: `match repr.to_string().as_str() { "u8" | "i8" => (1, "u8"), .. _ => abort!(.., "unsupported repr") }` -- the table
+    repr ident -> (guessed size in bytes, ident of the unsigned type of the same width), wherever in the file it sits and whatever the
+    bound names are.  No other string literal of the file may name an integer type (the companion must come from this table)."""
+    rel = "parser/mod.rs"
+    text = text_of(src.toks(rel))
+    ms = list(re.finditer(r'match (\w+) . to_string \( \) . as_str \( \) \{(.*?)_ => abort ! \( \w+ , "unsupported repr" \) ,? \}', text, re.S))
+    if len(ms) != 1:
+        raise TranslateError(f"{rel}: expected exactly one match on the repr's name ending in the \"unsupported repr\" arm, found {len(ms)}")
+    body = ms[0].group(2)
+    arms = re.findall(r'((?:"\w+" \| )*"\w+") => \( (\d+) , "(\w+)" \) ,', body)
+    rest = re.sub(r'((?:"\w+" \| )*"\w+") => \( (\d+) , "(\w+)" \) ,', "", body).strip()
+    if rest:
+        raise TranslateError(f"{rel}: an arm of the repr table is not of the form \"name\" | .. => (size, \"unsigned\"): {rest[:120]}")
+    outside = text[:ms[0].start()] + text[ms[0].end():]
+    stray = re.findall(r'"([ui](?:8|16|32|64|128|size))"', outside)
+    if stray:
+        raise TranslateError(f"{rel}: integer type named in a string literal outside the repr table: {stray[:3]}")
+    rows = []
+    for pats, size, uns in arms:
+        for r in re.findall(r'"(\w+)"', pats):
+            rows.append((r, int(size), uns))
+    if len({r for r, _, _ in rows}) != len(rows):
+        raise TranslateError(f"{rel}: a repr appears in two arms of the repr table")
+    L = ["-- GENERATED by /verif/translate from /repo/src/parser/mod.rs (the match on the repr's name). Do not edit.", "namespace ET.Generated", "",
+         "/-- (repr ident, guessed size in bytes, ident of the unsigned companion type) -/",
+         "def reprArms : List (String × Nat × String) := [",
+         ",\n".join(f'  ("{r}", {sz}, "{u}")' for r, sz, u in rows), "]", "", "end ET.Generated", ""]
+    return "\n".join(L), {"arms": len(rows)}
+
+
+GENERATORS += [("ReprTable.lean", gen_reprtable)]
+
+
 
 def gen_templates(src):
     import translate_templates
